@@ -17,6 +17,7 @@ LEVEL_NOTE = ("Not decided: that equal 32-bit ids mean the same syntax node in t
               "injective within a tree), and the values observed by programs.")
 LEVEL_TEXT += (" Also: (S) a strict scoped definition/assignment writes the variable map of the evaluated scope node itself (inheritance applies to reads only); (F) forcing window of the lazy scoped store: between Forcing and Forced only the cell's own values are evaluated, a re-entrant read is RecursivelyDefinedScopedVariable; (E5.var) VariableMap::add refuses every second definition whatever the mutability flags; (E6.p) all scoped definitions are forced before the lazy run returns.")
 LEVEL_TEXT += (" (E5.mut) `let` scoped variables are immutable, `var` mutable, in both modes; (E5.file) every `inherit` declaration adds to the file's set (never replaces it).")
+LEVEL_TEXT += (' (E5.key) no map or set keyed by String/&str (a cache keyed by the Display form of a scope merges distinct syntax nodes).')
 
 
 def _good_key(a):
@@ -401,6 +402,7 @@ def run(prog, rep):
     e5.variable_map_shape(prog, rep, "E5.var")
     e5.mutability_flags(prog, rep)
     e5.file_tables_grow_only(prog, rep)
+    e5.no_text_keyed_tables(prog, rep)
     memo_rule(prog, rep)
     forcing_window(prog, rep)
     from . import C02
